@@ -282,7 +282,11 @@ def install() -> None:
             cur = getattr(_tls, "file", None)
             if fault and cur and cur[0] == fault.get("f") and fault.get("c") in (None, cur[1]) and isinstance(self, libcst_transformer.LibcstResultTransformer):
                 _tls.nodes = getattr(_tls, "nodes", 0) + 1
-                if _tls.nodes == fault.get("n", 1):
+                if fault.get("n") == "after-first-change":
+                    # the first node visited after the transformer recorded a change
+                    if getattr(getattr(self, "file_context", None), "codemod_changes", None):
+                        raise InjectedFault("injected by harness at the node after the first recorded change")
+                elif _tls.nodes == fault.get("n", 1):
                     raise InjectedFault("injected by harness at a visited node")
         return orig_on_visit(self, node)
 
